@@ -14,6 +14,7 @@ import copy
 
 import numpy as np
 import z3
+from harness import pipeline as PP
 
 from symx import loader
 from symx.core import Sym, Ctx, symarray, qval, is_nan
@@ -66,6 +67,7 @@ def instances(tier):
         out.append({"name": f"summary_traditional_{dist}", "func": "run_summary", "kwargs": {"kind": "traditional", "dist": dist}})
     out.append({"name": "summary_azimuthal_lognormal", "func": "run_summary", "kwargs": {"kind": "azimuthal", "dist": "lognormal"}})
     out.append({"name": "pre_and_post_rejection", "func": "run_prepost", "kwargs": {}})
+    out.append({"name": "pre_and_post_rejection_panel_content", "func": "run_prepost_content", "kwargs": {}})
     out.append({"name": "azimuthal_mesh", "func": "run_mesh", "kwargs": {}})
     out.append({"name": "recordings_plot", "func": "run_records", "kwargs": {}})
     return out
@@ -75,7 +77,7 @@ def instances(tier):
 def mk_trad(ctx, w, nf, tag=""):
     HT = L()["hvsr_traditional"].HvsrTraditional
     frq = np.arange(1.0, nf + 1)
-    h = HT.__new__(HT)
+    h = PP.shell_traditional(HT)
     h.frequency, h.n_curves, h.meta = frq, w, {"note": "m"}
     h.amplitude = symarray("a" + tag, (w, nf), ctx, pos="exp")
     h._main_peak_frq = np.empty(w, dtype=object)
@@ -103,7 +105,7 @@ def mk_obj(ctx, kind):
     if kind == "azimuthal":
         HA = L()["hvsr_azimuthal"].HvsrAzimuthal
         parts = [mk_trad(ctx, 2, 3, tag=f"z{k}_") for k in range(2)]
-        az = HA.__new__(HA)
+        az = PP.shell_azimuthal(HA, L()["hvsr_traditional"].HvsrTraditional)
         az.hvsrs, az.azimuths, az.meta = [p[0] for p in parts], [0.0, 90.0], {"note": "az"}
         return az, az.hvsrs, [p[1] for p in parts]
     HD = L()["hvsr_diffuse_field"].HvsrDiffuseField
@@ -361,6 +363,102 @@ def run_prepost(rep, tier):
         rep.sample({"status": status, "raised": err})
 
 
+PRE_RANGE = (None, 3.2)      # on the grid 1..5 Hz the search covers 1-3 Hz: a maximum at 2 Hz is in, one at 4 Hz is out
+
+
+def _panel_marks(entries):
+    """The statistics-bearing calls of one panel: peak markers, mean-curve peak marker, fn band, mean / std lines."""
+    plots = [(a, k) for (n, a, k, r) in entries if n.endswith(".plot")]
+    fills = [(a, k) for (n, a, k, r) in entries if n.endswith(".fill")]
+    return {"peak markers": [list(a[:2]) for a, k in plots if k.get("marker") == "o" and k.get("markerfacecolor") == "white"],
+            "mean-curve peak marker": [list(a[:2]) for a, k in plots if k.get("marker") == "D"],
+            "fn band": [[a[0]] for a, k in fills],
+            "mean and std lines": [[a[1]] for a, k in plots if k.get("color") == "black" and k.get("linewidth") == 1.3],
+            "window lines": [[a[1]] for a, k in plots if k.get("linewidth") == 0.3 and k.get("color") == ACC and len(a) == 2 and len(a[1]) == 5]}
+
+
+def run_prepost_content(rep, tier):
+    """The 'Before Rejection' panel shows the object itself with every window accepted: its stored peaks, its mean-curve
+    peak under its own search range, its fn band - on an object whose peaks were picked under a bounded search range."""
+    Ld = L()
+    PP_ = Ld["postprocessing"]
+    HT = Ld["hvsr_traditional"].HvsrTraditional
+    TS, R3 = Ld["timeseries"].TimeSeries, Ld["seismic_recording_3c"].SeismicRecording3C
+    Rec = loader.AxesRecorder
+    w, nf = 3, 5      # two interior maxima possible (2 Hz and 4 Hz); the range keeps only the first
+    log = Ld.logs["matplotlib"]
+
+    def run(ctx):
+        frq = np.arange(1.0, nf + 1)
+        amp = symarray("a", (w, nf), ctx, pos="exp")
+        for i in (1, 2):      # windows 1 and 2 have a maximum at 2 Hz (so that two windows can be accepted); window 0 is arbitrary
+            ctx.assume(z3.And(z3.Real(f"ln_a_{i}_1") > z3.Real(f"ln_a_{i}_0"), z3.Real(f"ln_a_{i}_1") > z3.Real(f"ln_a_{i}_2")))
+        h = HT(frq, amp, meta={"note": "m"})
+        h.update_peaks_bounded(search_range_in_hz=PRE_RANGE)
+        status = []
+        for i in range(w):
+            if is_nan(h._main_peak_frq[i]):
+                status.append("nopeak")
+                continue
+            s = ["accepted", "rejected"][ctx.choose(2, tag=f"st{i}")]
+            status.append(s)
+            h.valid_window_boolean_mask[i] = h.valid_peak_boolean_mask[i] = (s == "accepted")
+        if sum(1 for s in status if s == "accepted") < 2:
+            return None
+        recs = [R3(*[TS(np.array([0.5 * (i + 1), -1.0, 0.25 * (c + 1)]), 0.5) for c in range(3)]) for i in range(w)]
+        del log[:]
+        err = None
+        try:
+            PP_.plot_pre_and_post_rejection(recs, h, distribution_mc="lognormal", distribution_fn="lognormal")
+        except ValueError as e:
+            err = str(e)
+        entries = list(log)
+        cut = [j for j, (n, a, k, r) in enumerate(entries) if n.endswith(".set_title") and a and a[0] == "Before Rejection"]
+        pre = entries[:cut[0]] if cut else None
+        # the object with every window accepted, drawn by the single-panel function (whose content run_panel proves)
+        ref = HT(frq, amp, meta={"note": "m"})
+        ref.update_peaks_bounded(search_range_in_hz=PRE_RANGE)
+        ref.valid_window_boolean_mask[:] = True
+        ref.valid_peak_boolean_mask[:] = True
+        rlog = []
+        rerr = None
+        try:
+            PP_.plot_single_panel_hvsr_curves(ref, distribution_mc="lognormal", distribution_fn="lognormal", plot_peak_individual_valid_curves=True,
+                                              plot_peak_mean_curve=True, ax=Rec("ax", rlog))
+        except ValueError as e:
+            rerr = str(e)
+        return amp, status, err, rerr, pre, rlog
+
+    for ctx, res in rep.explore(run, max_paths=1500 if tier == "quick" else 8000, timeout_ms=5000):
+        if res is None:
+            continue
+        amp, status, err, rerr, pre, rlog = res
+        rep.reachable(ctx)
+
+        def W(m, amp=amp, status=status):
+            val = concretiser(m)
+            return {"kind": "state", "what": "prepost-content", "dist": "lognormal", "status": status, "range": list(PRE_RANGE), "amplitude": [[val(x) for x in row] for row in amp]}
+        if err is not None or rerr is not None or pre is None:
+            rep.obligations += 1
+            if (err is None) == (rerr is None) and (pre is not None or err is not None):
+                rep.discharged += 1
+            else:
+                r, m = ctx.model()
+                rep.candidate(W(m), f"plot_pre_and_post_rejection raised {err!r} where drawing the object with every window accepted gives {rerr!r}", key="pre-panel-content")
+            continue
+        got, want = _panel_marks(pre), _panel_marks(rlog)
+        # witness shaping: log-amplitudes within [-2, 2] so that the true exponentials are ordinary floats
+        shape = [z3.And(z3.Real(f"ln_a_{i}_{j}") >= -2, z3.Real(f"ln_a_{i}_{j}") <= 2) for i in range(w) for j in range(nf)]
+        for what in want:
+            bad = [z3.BoolVal(len(got[what]) != len(want[what]))]
+            if len(got[what]) == len(want[what]):
+                for g, w_ in zip(got[what], want[what]):
+                    for x, y in zip(g, w_):
+                        bad += terms_equal(x, y)
+            rep.prove(ctx, f"'Before Rejection' panel: {what} are those of the object itself (its own search range) with every window accepted", bad, witness=W, key="pre-panel-content", shape=shape)
+        rep.sample({"status": status})
+
+
 def run_mesh(rep, tier):
     PP_ = L()["postprocessing"]
 
@@ -450,6 +548,45 @@ def replay(spec):
     if spec.get("kind") == "records":
         return {"reproduced": False, "detail": "structural obligation (no concrete replay)"}
     what = spec["what"]
+    if what == "prepost-content":
+        amp = np.array([[_num(x) for x in row] for row in spec["amplitude"]])
+        frq = np.arange(1.0, amp.shape[1] + 1)
+        rng = tuple(spec["range"])
+
+        def mk():
+            o = hvsrpy.HvsrTraditional(frq, amp, meta={"note": "m"})
+            o.update_peaks_bounded(search_range_in_hz=rng)
+            return o
+        h, ref = mk(), mk()
+        ref.valid_window_boolean_mask[:] = True
+        ref.valid_peak_boolean_mask[:] = True
+        for i, st in enumerate(spec["status"]):
+            if st == "rejected":
+                h.valid_window_boolean_mask[i] = h.valid_peak_boolean_mask[i] = False
+        recs = [hvsrpy.SeismicRecording3C(*[hvsrpy.TimeSeries(np.array([0.5 * (i + 1), -1.0, 0.25 * (c + 1)]), 0.5) for c in range(3)]) for i in range(len(amp))]
+
+        def marks(ax):
+            o = [(l.get_xdata(), l.get_ydata()) for l in ax.get_lines() if l.get_marker() == "o" and l.get_markerfacecolor() == "white"]
+            d = [(l.get_xdata(), l.get_ydata()) for l in ax.get_lines() if l.get_marker() == "D"]
+            return o, d
+        try:
+            fig, axs = hvsrpy.plot_pre_and_post_rejection(recs, h)
+            pre = [a for a in fig.axes if a.get_title() == "Before Rejection"][0]
+            got = marks(pre)
+            fig2, ax2 = plt.subplots()
+            hvsrpy.plot_single_panel_hvsr_curves(ref, plot_peak_individual_valid_curves=True, plot_peak_mean_curve=True, ax=ax2)
+            want = marks(ax2)
+        except Exception as e:   # noqa
+            plt.close("all")
+            return {"reproduced": False, "detail": f"raised {type(e).__name__}: {e}"}
+        plt.close("all")
+
+        def same(a, b):
+            return len(a) == len(b) and all(np.allclose(np.asarray(x[0], float), np.asarray(y[0], float), equal_nan=True, rtol=1e-9, atol=0) and
+                                            np.allclose(np.asarray(x[1], float), np.asarray(y[1], float), equal_nan=True, rtol=1e-9, atol=0) for x, y in zip(a, b))
+        ok = same(got[0], want[0]) and same(got[1], want[1])
+        return {"reproduced": not ok, "key": "pre-panel-content",
+                "detail": f"'Before Rejection' markers {[(np.asarray(x).tolist(), np.asarray(y).tolist()) for x, y in got[0] + got[1]]} vs the object's own with every window accepted {[(np.asarray(x).tolist(), np.asarray(y).tolist()) for x, y in want[0] + want[1]]}"}
     if what == "prepost":
         h = _mk_real(spec)
         h._search_range_in_hz = (None, spec.get("fhi"))
